@@ -61,6 +61,8 @@ def _run(argv):
 
     if FLAGS.clip_to_viewbox:
         svg.clip_to_viewbox(inplace=True)
+        # clipping yields fresh, unrounded coordinates
+        svg.round_floats(3, inplace=True)
 
     output = svg.tostring(pretty_print=True)
 
